@@ -30,7 +30,7 @@ pub fn plan(prop: &str) -> Vec<Batch> {
         "C04" => vec![b("A", "sckill", 30_000, 600_000), b("A", "weakkill", 20_000, 500_000), b("A", "corrupt", 8_000, 200_000), b("B", "restart", 8_000, 200_000)],
         "C11" => vec![b("A", "sweep", 4_096, 4_096), b("A", "sckill", 20_000, 400_000), b("A", "sc", 10_000, 200_000), b("A", "corrupt", 8_000, 200_000)],
         "C16" => vec![b("A", "corrupt", 60_000, 1_500_000), b("A", "sckill", 6_000, 100_000), b("B", "abi", 4_000, 80_000)],
-        "C18" => vec![b("A", "busy", 20_000, 400_000), b("A", "sckill", 20_000, 400_000), b("A", "weakkill", 10_000, 300_000), b("A", "deadwriter", 16, 480), b("A", "flood", 4, 64)],
+        "C18" => vec![b("A", "deadwriter", 16, 480), b("A", "flood", 4, 64), b("A", "busy", 20_000, 400_000), b("A", "sckill", 20_000, 400_000), b("A", "weakkill", 10_000, 300_000)],
         "C17" => vec![b("A", "sc", 8_000, 100_000), b("A", "corrupt", 8_000, 100_000), b("B", "abi", 16_000, 400_000), b("B", "synthetic", 16_000, 400_000)],
         "C01" => vec![b("B", "pipeline", 24_000, 600_000), b("B", "restart", 12_000, 300_000), b("B", "tight", 16_000, 400_000), b("B", "coldstart", 8_000, 200_000), b("B", "outage", 8_000, 200_000)],
         "C05" => vec![b("B", "synthetic", 30_000, 800_000), b("B", "pipeline", 12_000, 300_000), b("B", "tight", 6_000, 100_000)],
@@ -74,6 +74,7 @@ struct Agg {
     fps: BTreeSet<u64>,
     all_fps: BTreeSet<u64>,
     states: BTreeSet<u64>,
+    sets: BTreeMap<String, BTreeSet<u64>>,
     violations: Vec<Value>,
     viol_count: BTreeMap<String, u64>,
     harness_errors: Vec<String>,
@@ -89,6 +90,7 @@ impl Agg {
             "fps": self.fps.iter().map(|x| format!("{x:x}")).collect::<Vec<_>>(),
             "all_fps": self.all_fps.iter().map(|x| format!("{x:x}")).collect::<Vec<_>>(),
             "states": self.states.iter().map(|x| format!("{x:x}")).collect::<Vec<_>>(),
+            "sets": self.sets.iter().map(|(k, v)| (k.clone(), v.iter().map(|x| format!("{x:x}")).collect::<Vec<_>>())).collect::<BTreeMap<_, _>>(),
             "violations": self.violations, "viol_count": self.viol_count, "harness_errors": self.harness_errors, "samples": self.samples,
             "hashes": self.hashes.iter().map(|(i, h)| json!([i, format!("{h:x}")])).collect::<Vec<_>>(),
         })
@@ -122,6 +124,16 @@ impl Agg {
             if let Some(a) = v[name].as_array() {
                 for x in a {
                     set.insert(hex(x));
+                }
+            }
+        }
+        if let Some(m) = v["sets"].as_object() {
+            for (k, a) in m {
+                let e = self.sets.entry(k.clone()).or_default();
+                if let Some(a) = a.as_array() {
+                    for x in a {
+                        e.insert(hex(x));
+                    }
                 }
             }
         }
@@ -171,6 +183,9 @@ fn absorb(agg: &mut Agg, prop: &str, index: u64, run_seed: u64, out: Outcome, re
         agg.fps.insert(rep.sched_fp);
     }
     agg.states.extend(out.states.iter().copied());
+    for (k, v) in &out.sets {
+        agg.sets.entry(k.to_string()).or_default().extend(v.iter().copied());
+    }
     for v in &out.violations {
         let key = format!("{}|{}|{}", v.props.join("+"), v.oracle, v.sig);
         let c = agg.viol_count.entry(key).or_insert(0);
@@ -621,6 +636,17 @@ pub fn check(prop: &str, tier: &str) -> i32 {
         }
         let a = agg.to_json();
         total.merge_json(&a);
+        // a violation of this property that is not a listed finding decides the check: skip the
+        // remaining batches (they would only add time; the evidence file then covers what ran)
+        let known_now = load_known();
+        let decided = agg.violations.iter().any(|v| {
+            v["props"].as_array().map(|a| a.iter().any(|p| p == prop)).unwrap_or(false)
+                && !known_now.iter().any(|k| k.property == prop && k.sig == format!("{}: {}", v["oracle"].as_str().unwrap_or(""), v["sig"].as_str().unwrap_or("")))
+        });
+        if decided {
+            println!("  violation found: skipping the remaining batches");
+            break;
+        }
     }
     harness_fail.extend(total.harness_errors.iter().cloned());
 
@@ -746,6 +772,7 @@ pub fn check(prop: &str, tier: &str) -> i32 {
             "nontrivial_runs": nontrivial_runs,
             "distinct_interleavings_all_runs": total.all_fps.len(),
             "distinct_abstract_states": total.states.len(),
+            "distinct_values_covered": total.sets.iter().map(|(k, v)| (k.clone(), v.len())).collect::<BTreeMap<_, _>>(),
             "steps": total.steps,
             "context_switches": total.switches,
             "virtual_seconds": (total.virt_ns / 1_000_000_000) as u64,
